@@ -65,7 +65,8 @@ MU = gen.MU
 RHO = gen.RHO
 T_IN = 623.15
 LENGTH = 0.5
-GRID_Z = [0.1, 0.3]
+GRID_FRAC = [0.2, 0.6]     # grid positions as fractions of the length
+RE_FULL_LENGTH = 8.0e4     # below: core length scaled ~Re (step count ~L/Re)
 LC_VALUE = 1.5
 
 TOL_ID = 1e-12       # mass conservation / cross-checks (statement: 1e-12)
@@ -169,7 +170,14 @@ def cases(tier, seed):
 # problem construction
 
 
-def make_type(g, triple, gm):
+def core_length(re):
+    """Core length of a full build: the explicit march needs ~L/Re steps, so
+    low-Re builds use a proportionally shorter core (the oracle reads the
+    length from the region)."""
+    return LENGTH * min(1.0, re / RE_FULL_LENGTH)
+
+
+def make_type(g, triple, gm, length=LENGTH):
     """Assembly type with prescribed P/D, H/D, wire fraction and wall slack
     (pin diameter follows from the fixed duct size)."""
     ftf_outer, wall, gap = 0.1175, 0.003, 0.002
@@ -192,14 +200,15 @@ def make_type(g, triple, gm):
          'corr_flowsplit': triple[2]}
     if g['n_duct'] > 1:
         t['bypass_gap_flow_fraction'] = g.get('byp', 0.05)
+    grid_z = [float(f * length) for f in GRID_FRAC]
     if gm == 'reh':
-        t['SpacerGrid'] = {'corr': 'REH', 'axial_positions': GRID_Z,
+        t['SpacerGrid'] = {'corr': 'REH', 'axial_positions': grid_z,
                            'solidity': 0.3}
     elif gm == 'cdd':
-        t['SpacerGrid'] = {'corr': 'CDD', 'axial_positions': GRID_Z,
+        t['SpacerGrid'] = {'corr': 'CDD', 'axial_positions': grid_z,
                            'solidity': 0.25}
     elif gm == 'lc':
-        t['SpacerGrid'] = {'loss_coeff': LC_VALUE, 'axial_positions': GRID_Z}
+        t['SpacerGrid'] = {'loss_coeff': LC_VALUE, 'axial_positions': grid_z}
     return t
 
 
@@ -211,8 +220,9 @@ def flow_for(G, g, re):
 
 
 def make_problem(g, triple, gm, G, re):
-    P = gen.base_problem(length=LENGTH, inlet=T_IN)
-    P['types']['a'] = make_type(g, triple, gm)
+    length = core_length(re)
+    P = gen.base_problem(length=length, inlet=T_IN)
+    P['types']['a'] = make_type(g, triple, gm, length)
     gen.add_position(P, 'a', 1, 1, flowrate=flow_for(G, g, re), dT=5.0,
                      shape='flat')
     return P
@@ -245,7 +255,8 @@ def re_points(tier, pd, rng):
 def rep_points(pd):
     bl = max(ct.re_bounds('CTD', pd)[0], ct.re_bounds('UCTD', pd)[0])
     bt = ct.re_bounds('CTD', pd)[1]
-    return [120.0, math.sqrt(bl * bt), 8.0e4]
+    # turbulent first: its full-length region becomes the clone template
+    return [8.0e4, math.sqrt(bl * bt), 120.0]
 
 
 # ----------------------------------------------------------------------
@@ -422,7 +433,8 @@ class Monitor(object):
         # --- flow split: positivity, mass conservation
         ok = bool(np.all(np.isfinite(x)) and np.all(x > 0.0))
         self.ctx['split_ok'] = ok
-        self.check('X_positive', ok, 'flow split not positive/finite: %r' % x,
+        self.check('X_positive', ok,
+                   '' if ok else 'flow split not positive/finite: %r' % x,
                    {'mech': ('split_nan' if np.any(np.isnan(x)) else
                              'split_nonpositive'),
                     'fs_ct': fs in CT, 'hybrid': self.hybrid(),
@@ -448,7 +460,8 @@ class Monitor(object):
         fok = bool(np.ndim(f_b) == 0 and np.isfinite(f_b) and f_b > 0.0)
         re1 = re * x[0] * G['de'][0] / G['De_b'] if ok else float('nan')
         self.check('FF_positive_finite', fok,
-                  'bundle friction factor not positive/finite: %r' % (f_b,),
+                  '' if fok else 'bundle friction factor not positive/finite: '
+                  '%r' % (f_b,),
                   {'mech': 'ff_value', 'ff': ff, 'value': _kind(f_b),
                    'nov_re1_le_16_76': bool(ff == 'NOV' and re1 <= 16.76),
                    'split_ok': ok},
@@ -469,7 +482,7 @@ class Monitor(object):
                           {'mech': 'grid_coeff_user'}, self.data())
             if not kok:
                 return
-            k_tot = float(k1) * len(GRID_Z)
+            k_tot = float(k1) * len(GRID_FRAC)
         # --- Cheng-Todreas family: pressure gradients
         if fs in CT and ok:
             self.pressure_gradients(reg, x, re, f_b if fok else None, k_tot,
@@ -616,8 +629,8 @@ class Monitor(object):
                   and np.all(np.isfinite(sw)) and np.all(sw >= 0.0))
         split_ok = bool(np.all(np.isfinite(cip['fs'])))
         self.check('MIX_nonneg_finite', ok,
-                   'mixing parameters negative or not finite: eddy %r swirl %r'
-                   % (eddy, sw),
+                   '' if ok else 'mixing parameters negative or not finite: '
+                   'eddy %r swirl %r' % (eddy, sw),
                    {'mech': ('mix_value' if split_ok else
                              'mix_nan_from_split_nan'), 'mix': mix,
                     'hybrid': self.hybrid()},
